@@ -473,9 +473,13 @@ def exec_for(ex, node, st):
         kv_mode, mp, mpath = seq.what, seq.m, seq.path
         keys = KeysView(mp, 'keys').as_list(ex, st)
         seq, path = keys, None
+        # the (arbitrary, duplicate-free) enumeration order is nameable in
+        # invariants as keys_<loop variable>
+        st.env['keys_' + _names(node.target)[-1]] = keys
     elif isinstance(seq.ty, TMap):
         kv_mode, mp, mpath = 'keys', seq, path
         seq, path = KeysView(seq, 'keys').as_list(ex, st), None
+        st.env['keys_' + _names(node.target)[-1]] = seq
     elif isinstance(seq, PyDict):
         seq = PyTuple([lift(k) for k in seq.items], True)
     elif isinstance(seq.ty, TSet):
@@ -643,6 +647,7 @@ def unroll(ex, node, st, seq, start):
                                PyTuple([Val(TInt, z3.simplify(start + k)), item]), s)
             else:
                 ex.bind_target(node.target, item, s)
+            s.heads[ex.loop_ord[id(node)]] = dict(s.env)
             for kind, s2, val in ex.exec_block(node.body, s):
                 if kind in ('next', 'continue'):
                     nxt.append(s2)
